@@ -794,9 +794,18 @@ def function_stream(ctx, rng, n):
 def run_config(ctx, spec, hcs, exprs, meta, corpus=False):
     """One data set + algorithm configuration, several criteria records."""
     pl = spec["cls"].startswith("pLSCF")
+    neutral_ok = True
     try:
         setup = build_setup(spec)
-        alg0 = run_class(setup, spec, dict(conj=False, xi_max=2.0, mpc_lim=-1.0, mpd_lim=10.0, cov_max=1.7e308), "neutral")
+        try:
+            alg0 = run_class(setup, spec, dict(conj=False, xi_max=2.0, mpc_lim=-1.0, mpd_lim=10.0, cov_max=1.7e308), "neutral")
+        except Exception as e0:
+            # the neutral record lies OUTSIDE the documented domains (xi_max in (0,1], mpc_lim in [0,1], mpd_lim in [0,pi/2]): a library that
+            # validates them may refuse it.  The widest in-domain record must still run; the unfiltered tables come from the pipeline
+            # functions anyway, and every in-domain record below is judged against them.
+            neutral_ok = False
+            ctx.hist("out-of-domain neutral criteria refused by the library", type(e0).__name__)
+            alg0 = run_class(setup, spec, dict(LOOSEST), "loosest")
         U = unfiltered(alg0, spec)
     except Exception as e:  # a configuration the library itself rejects (too short a record, singular system ...)
         ctx.hist("configurations the library rejects", type(e).__name__)
@@ -830,11 +839,14 @@ def run_config(ctx, spec, hcs, exprs, meta, corpus=False):
         ctx.note("Phi_poles_cov is all-nan BEFORE any criterion (SSI_poles never fills it, see its FIXME): it cannot share the NaN pattern of the "
                  "other tables; the check compares it with the model (blank in, blank out) and leaves it out of the joint-pattern clause")
     rng = ctx.np_rng
-    todo = [("neutral", dict(conj=False, xi_max=2.0, mpc_lim=-1.0, mpd_lim=10.0, cov_max=1.7e308), alg0)]
+    todo = [("neutral", dict(conj=False, xi_max=2.0, mpc_lim=-1.0, mpd_lim=10.0, cov_max=1.7e308), alg0)] if neutral_ok else [("given", dict(LOOSEST), alg0)]
     for hc in hcs:
         todo.append(("given", hc, None))
     if not corpus:
-        todo.append(("neutral", as_user(rng, dict(conj=False, xi_max=2.0, mpc_lim=-1.0, mpd_lim=10.0, cov_max=1.7e308)), None))
+        if neutral_ok:
+            todo.append(("neutral", as_user(rng, dict(conj=False, xi_max=2.0, mpc_lim=-1.0, mpd_lim=10.0, cov_max=1.7e308)), None))
+        else:
+            todo.append(("given", as_user(rng, dict(LOOSEST)), None))
         for mode in spec.get("_modes", []):
             todo.append((mode, as_user(rng, gen_hc(rng, U, mpc, mpd, mode)), None))
     for j, (mode, hc, alg) in enumerate(todo):
@@ -848,7 +860,13 @@ def run_config(ctx, spec, hcs, exprs, meta, corpus=False):
                 alg = run_class(setup, spec, hc, "a%d" % j, sc)
             R = result_tables(alg, spec)
         except Exception as e:
+            if not in_domain(hc):   # refusing values outside the documented domains is the library's right (the property quantifies inside them)
+                ctx.hist("out-of-domain criteria refused by the library", type(e).__name__)
+                ctx.not_judged += 1
+                alg = None
+                continue
             ctx.fail("oracle", "%s.run raised %s with criteria %s" % (spec["cls"], type(e).__name__, hc), case, key="C09:%s:raises" % spec["cls"])
+            alg = None
             continue
         judge(ctx, case, spec["cls"], U, mpc, mpd, R, hc, pl, exprs, meta, "", mode == "neutral")
         if not corpus and (mode == "conjonly" or (mode not in ("neutral",) and rng.random() < 0.04)):
@@ -899,6 +917,16 @@ def same_tables(R1, R2):
 
 # ----------------------------------------------------------------------------------------------- sequences and several objects
 NEUTRAL = dict(conj=False, xi_max=2.0, mpc_lim=-1.0, mpd_lim=10.0, cov_max=1.7e308)
+LOOSEST = dict(conj=False, xi_max=1.0, mpc_lim=0.0, mpd_lim=float(np.pi / 2), cov_max=1e300)   # the widest record INSIDE the documented domains
+
+
+def in_domain(hc):
+    """xi_max in (0, 1], mpc_lim in [0, 1], mpd_lim in [0, pi/2], cov_max > 0 - the property's quantifier."""
+    try:
+        return bool(0 < float(hc.get("xi_max", 0.1)) <= 1 and 0 <= float(hc.get("mpc_lim", 0.7)) <= 1
+                    and 0 <= float(hc.get("mpd_lim", 0.3)) <= np.pi / 2 * (1 + 1e-12) and float(hc.get("cov_max", 1.0)) > 0)
+    except Exception:
+        return False
 DEFAULT_HC = dict(conj=True, xi_max=0.1, mpc_lim=0.7, mpd_lim=0.3, cov_max=0.2)  # documented defaults of SSIRunParams / pLSCFRunParams
 DATA_KEYS = ("seed", "noise", "kind", "n", "nch", "nref", "nmov", "n2", "alt", "fs", "xi1")
 
